@@ -246,6 +246,7 @@ func (fr *fzRun) checkAfter(desc string, node *simrt.Node, panicsBefore, fatalsB
 func (fr *fzRun) runReplica() {
 	s := fr.s
 	w := simrt.NewWorld(s.Seed, synctest.Wait)
+	w.TraceOn = os.Getenv("VERIF_TRACE") != ""
 	defer w.Close()
 	fr.w = w
 	fr.adminN = w.AddNode("admin", "10.0.0.250")
@@ -354,6 +355,9 @@ func (fr *fzRun) finish() {
 	fr.res.SimNanos = int64(w.Now())
 	fr.res.Steps = w.Steps
 	fr.res.Shape = hashStrings(fr.shape)
+	if f := os.Getenv("VERIF_SHAPE_FILE"); f != "" {
+		os.WriteFile(f, []byte(strings.Join(fr.shape, "\n")+"\n"), 0644)
+	}
 	fr.res.Nontrivial = fr.res.Stats["replica_requests"]+fr.res.Stats["controller_requests"] > 0
 	fr.res.TraceHash = hashTrace(w.Trace)
 }
@@ -363,6 +367,7 @@ func (fr *fzRun) finish() {
 func (fr *fzRun) runController() {
 	s := fr.s
 	w := simrt.NewWorld(s.Seed, synctest.Wait)
+	w.TraceOn = os.Getenv("VERIF_TRACE") != ""
 	defer w.Close()
 	fr.w = w
 	rf := int(s.Cfg["rf"])
@@ -428,6 +433,7 @@ func (fr *fzRun) runController() {
 				body = ""
 			}
 			nrep := 0
+			w.Wait() // a kill just before this request wakes controller goroutines: sample the list at quiescence
 			if c.ctrl != nil {
 				nrep = len(c.ctrl.ListReplicas())
 			}
